@@ -120,7 +120,7 @@ func TestExhaustiveSmallQueues(t *testing.T) {
 			jobs = append(jobs, job{s, l <= 3})
 		}
 	}
-	const workers = 8
+	const workers = 16
 	var total, nontrivial atomic.Int64
 	t.Run("partitions", func(t *testing.T) {
 		for p := 0; p < workers; p++ {
